@@ -203,7 +203,9 @@ def run(ctx, replay):
         "distinct_nontrivial": transitions + random_ops,
         "rule": "model states exported by TLC (one per distinct slot configuration, with its shortest history); from each, every "
                 "mutator instance (27) and every rename-inside-Range function (27) is taken on the real map = one distinct "
-                "transition; plus every operation of the seeded long histories. Trivial = none (each is a distinct (state, op) pair).",
+                "transition; plus every operation of the seeded long histories. Every second rename function also APPENDS from inside the iteration "
+                "(rename of an absent key in the callback of the last live entry): the pass must not visit it. The JSON observer also holds the "
+                "direct result of MarshalJSON while other maps are encoded. Trivial = none (each is a distinct (state, op) pair).",
         "exhaustive": True,
         "exhaustive_scope": "all operation histories of length <= %d over 3 keys x 2 values from nil/new/zero maps, every transition "
                             "from every reached state replayed on the real map; model-only to depth %d; pairs of maps for Equal to "
